@@ -187,7 +187,21 @@ def ensure(flavour, tools=None, quiet=True):
     return d
 
 
+_TOOL_MEMO = {}
+
+
 def tool(flavour, name):
+    # the tree is hashed once per process and tool: a check is one process, so it still rebuilds
+    # from /repo's current working tree every time it is invoked
+    k = (flavour, name)
+    if k in _TOOL_MEMO and os.path.exists(_TOOL_MEMO[k]):
+        return _TOOL_MEMO[k]
+    p = _tool(flavour, name)
+    _TOOL_MEMO[k] = p
+    return p
+
+
+def _tool(flavour, name):
     d = ensure(flavour, tools=[name])
     p = os.path.join(d, "bin", name)
     if not os.path.exists(p):
